@@ -210,6 +210,9 @@ func (b *Buffer) ServeHTTP(w http.ResponseWriter, req *http.Request) {
 		if (b.retryPredicate == nil || attempt > DefaultMaxRetryAttempts) ||
 			!b.retryPredicate(&context{r: req, attempt: attempt, responseCode: bw.code}) {
 			utils.CopyHeaders(w.Header(), bw.Header())
+			if bw.code == 0 {
+				bw.code = http.StatusOK
+			}
 			w.WriteHeader(bw.code)
 			if reader != nil {
 				_, _ = io.Copy(w, reader)
@@ -299,6 +302,9 @@ func (b *bufferWriter) Header() http.Header {
 }
 
 func (b *bufferWriter) Write(buf []byte) (int, error) {
+	if b.code == 0 {
+		b.code = http.StatusOK
+	}
 	length, err := b.buffer.Write(buf)
 	if err != nil {
 		// Since go1.11 (https://github.com/golang/go/commit/8f38f28222abccc505b9a1992deecfe3e2cb85de)
